@@ -126,12 +126,12 @@ def check(run):
     run.lean_props(common.modules_for("C04"))
     rng = run.rng
     rotors = corr.rotor_strata(rng, 4 if quick else 12)
-    preps = kern.prep_rotors(run, rotors)
+    preps = run.attempt("corr:euler", kern.prep_rotors, run, rotors, default={})
     cases = []
     for (L, s, eM) in ([(4, 0, 4), (4, -2, 3), (6, 3, 6), (6, 1, 2), (8, -4, 8), (7, 6, 7), (3, 0, 0)] if quick else
                        [(4, 0, 4), (4, -2, 3), (6, 3, 6), (6, 1, 2), (8, -4, 8), (7, 6, 7), (3, 0, 0), (12, 5, 12), (16, -3, 13), (20, 2, 20)]):
         cases.append((L, s, eM, helpers.random_weights(rng, s, eM)))
-    kern.corr_rotH(run, cases, rotors if not quick else rotors[:14] + rotors[-3:], preps, poison=float("nan"))
+    run.attempt("corr:corr_rotH", kern.corr_rotH, run, cases, rotors if not quick else rotors[:14] + rotors[-3:], preps, poison=float("nan"))
     gap(run, quick)
     run.assumptions += ["f'(Q)=f(RQ), composition, inverse and block norms need the representation property of D, which is not proved: oracle sweep only",
                         "matrix route uses BLAS: compared numerically"]
